@@ -3,8 +3,8 @@ CONSTANTS
   Cap = 2
   SegCap = 2
   FixStale = TRUE
-  MaxSets = 5
-  MaxOps = 9
+  MaxSets = 4
+  MaxOps = 8
   MaxFaults = 2
   UseKeys = {"k1", "k2", "k3"}
   UseClients = {"c1", "c2"}
